@@ -159,3 +159,32 @@ async def emit(loop, glue, frame_objects):
         except Exception:
             pass
     return list(ws.sent)
+
+
+async def feed_quic(loop, chunks, cap):
+    """Byte framing over the repository's QUIC transport: the chunks arrive as StreamDataReceived events at a real
+    RSocketQuicProtocol (its QuicConnection is a stand-in), a real RSocketQuicTransport turns them into frames."""
+    from aioquic.quic.events import StreamDataReceived
+    from harness.glue_e2e import quic_pair
+    from rsocket.transports.aioquic_transport import RSocketQuicTransport
+    _pa, pb = quic_pair()
+    t = RSocketQuicTransport(pb)
+    for ch in chunks:
+        if ch:
+            pb.quic_event_received(StreamDataReceived(data=bytes(ch), end_stream=False, stream_id=0))
+        await asyncio.sleep(0)
+    for _ in range(6):
+        await asyncio.sleep(0)
+    out = []
+    while not t._incoming_frame_queue.empty():
+        try:
+            gen = await t.next_frame_generator()
+        except Exception as e:
+            out.append(('raised', type(e).__name__))
+            continue
+        async for fr in gen:
+            out.append(fr)
+            if len(out) > cap:
+                raise Endless()
+    await t.close()
+    return out
